@@ -1,6 +1,836 @@
-//! C14 — stub (not built yet).
+//! C14 — the validator says "secure" only with a valid chain to a trust anchor.
+//!
+//! A small signed world (root → tld → zone → sub-zone, plus a sibling zone, a
+//! second TLD and unsigned children) is signed with the library's signer and
+//! cross-checked with an independent reference. Queries are answered by a
+//! model resolver, fault scripts tamper with the final answer and with the
+//! DS/DNSKEY lookups, and `ValidationContext::validate_msg` is run over an
+//! in-process upstream. Oracle: soundness, completeness, totality.
+#![allow(dead_code)]
+mod auth;
+mod faults;
+mod refsec;
+mod wire;
+mod world;
+
 use crate::engine::*;
+use crate::gen::*;
+use crate::{vensure, vfail};
+use arbitrary::Unstructured;
+use auth::*;
+use bytes::Bytes;
+use domain::base::Message;
+use domain::dnssec::validator::anchor::TrustAnchors;
+use domain::dnssec::validator::context::{Config, ValidationContext, ValidationState};
+use domain::net::client::request::{ComposeRequest, Error as ReqError, GetResponse, RequestMessage, SendRequest};
+use faults::*;
+use std::collections::BTreeMap;
+use std::future::Future;
+use std::pin::Pin;
+use std::sync::{Arc, Mutex};
+use wire::*;
+use world::*;
+
+//------------ Upstream ------------------------------------------------------------------
+
+#[derive(Clone, Debug, PartialEq, Eq, Hash)]
+struct UpFault {
+    zone: usize,
+    qtype: u16,
+    spec: FaultSpec,
+}
+
+#[derive(Default)]
+struct UpState {
+    count: usize,
+    log: Vec<(Nm, u16)>,
+    applied: Vec<(usize, Applied)>,
+}
+
+#[derive(Clone)]
+struct Up {
+    world: Arc<World>,
+    faults: Vec<UpFault>,
+    final_qtype: u16,
+    state: Arc<Mutex<UpState>>,
+}
+
+#[derive(Debug)]
+struct Ready(Option<Result<Message<Bytes>, ReqError>>);
+
+impl GetResponse for Ready {
+    fn get_response(&mut self) -> Pin<Box<dyn Future<Output = Result<Message<Bytes>, ReqError>> + Send + Sync + '_>> {
+        let r = self.0.take().unwrap_or(Err(ReqError::ConnectionClosed));
+        Box::pin(async move { r })
+    }
+}
+
+impl SendRequest<RequestMessage<Vec<u8>>> for Up {
+    fn send_request(&self, req: RequestMessage<Vec<u8>>) -> Box<dyn GetResponse + Send + Sync> {
+        let out = self.answer(&req);
+        Box::new(Ready(Some(out)))
+    }
+}
+
+impl Up {
+    fn answer(&self, req: &RequestMessage<Vec<u8>>) -> Result<Message<Bytes>, ReqError> {
+        let msg = req.to_message().map_err(|_| ReqError::FormError)?;
+        let q = msg.sole_question().map_err(|_| ReqError::FormError)?;
+        let qname: Nm = {
+            use domain::base::ToName;
+            q.qname().to_name::<Vec<u8>>().as_slice().to_vec()
+        };
+        let qtype = q.qtype().to_int();
+        {
+            let mut st = self.state.lock().unwrap();
+            st.count += 1;
+            if st.log.len() < 400 {
+                st.log.push((qname.clone(), qtype));
+            }
+        }
+        let mut resp = resolve(&self.world, &qname, qtype);
+        let mut m = resp.to_msg(&qname, qtype);
+        m.id = msg.header().id();
+        let mut opts = WriteOpts::default();
+        let mut wire_kind = None;
+        for (fi, f) in self.faults.iter().enumerate() {
+            if f.qtype != qtype || !name_eq(&self.world.zones[f.zone].apex, &qname) {
+                continue;
+            }
+            if let Some((k, sel, param)) = f.spec.structural {
+                if matches!(k, SKind::Counts | SKind::Truncate | SKind::FlipByte | SKind::UpstreamError) {
+                    wire_kind = Some((fi, (k, sel, param)));
+                } else if let Some(a) = apply_structural(&self.world, &mut m, &mut resp.sets, k, sel, param, Some((f.zone, qtype)), self.final_qtype) {
+                    self.state.lock().unwrap().applied.push((fi, a));
+                }
+            }
+            for (k, sel, param) in &f.spec.cosmetic {
+                if let Some(l) = apply_cosmetic(&mut m, &resp.sets, &mut opts, *k, *sel, *param) {
+                    self.state.lock().unwrap().applied.push((fi, Applied { effect: Effect::Harmless, label: l, touches_signed: false, forged_zone: None }));
+                }
+            }
+        }
+        if std::env::var_os("C14_DEBUG").is_some() {
+            eprintln!("lookup {} {} ->", show(&qname), tname(qtype));
+            for r in m.answer.iter().chain(m.authority.iter()) {
+                if let Some(f) = (r.rtype == T_RRSIG).then(|| parse_rrsig(&r.rdata)).flatten() {
+                    eprintln!("   {} ttl={} signer={} tag={} labels={} alg={}", show_rec(r), r.ttl, show(&f.signer), f.key_tag, f.labels, f.alg);
+                } else {
+                    eprintln!("   {} ttl={} rdata[..8]={:?}", show_rec(r), r.ttl, &r.rdata[..r.rdata.len().min(8)]);
+                }
+            }
+        }
+        let (wire, a) = finish(&m, &opts, wire_kind.map(|x| x.1));
+        if let (Some(a), Some((fi, _))) = (a, wire_kind) {
+            self.state.lock().unwrap().applied.push((fi, a));
+        }
+        match wire {
+            Wire::Error => Err(ReqError::StreamReceiveError),
+            Wire::Bytes(b) => Message::from_octets(Bytes::from(b)).map_err(|_| ReqError::ShortMessage),
+        }
+    }
+}
+
+/// Upstream of the validating connection: hands out the final answer.
+#[derive(Clone)]
+struct FinalUp {
+    bytes: Vec<u8>,
+}
+
+impl SendRequest<RequestMessage<Vec<u8>>> for FinalUp {
+    fn send_request(&self, req: RequestMessage<Vec<u8>>) -> Box<dyn GetResponse + Send + Sync> {
+        let mut b = self.bytes.clone();
+        if b.len() >= 2 {
+            let id = req.header().id().to_be_bytes();
+            b[0] = id[0];
+            b[1] = id[1];
+        }
+        Box::new(Ready(Some(Message::from_octets(Bytes::from(b)).map_err(|_| ReqError::ShortMessage))))
+    }
+}
+
+//------------ Case ------------------------------------------------------------------------
+
+const RELS: &[&str] = &[
+    "www", "", "alias", "foo.wild", "nope", "ext", "www", "chain", "dang", "a.b.wild", "x.wild", "*.wild", "wild", "foo.wc", "ent", "a.ent", "b.ent", "mx", "ns",
+    "", "nope.www", "0", "zzz", "a.b.c.nope", "loop1", "zone", "sub", "tld", "alt", "other", "unsig", "www.unsig", "nope.unsig", "bar.foo.wc", "www", "ns",
+];
+const QTYPES: &[u16] = &[T_A, T_A, T_AAAA, T_TXT, T_DS, T_MX, T_NS, T_SOA, T_CNAME, T_DNSKEY, T_NSEC, T_A];
+
+#[derive(Clone, Debug, PartialEq, Eq, Hash)]
+struct Case {
+    shape: Shape,
+    qzone: usize,
+    rel: usize,
+    qtype: u16,
+    lie: Option<usize>,
+    authority_ns: bool,
+    answer_fault: Option<FaultSpec>,
+    up_faults: Vec<(u8, bool, FaultSpec)>,
+    bad_sigs: u8,
+    /// also run the case through net::client::validator::Connection:
+    /// (DO, AD, CD) of the client request
+    via_connection: Option<(bool, bool, bool)>,
+    /// validate the untampered answer first with the same context (warm
+    /// caches), then the tampered one; lookup faults are not used then
+    warm: bool,
+}
+
+fn zone_shape(u: &mut Unstructured, root: bool) -> ZoneShape {
+    let signed = chance(u, 244);
+    let ds_in_parent = if root { true } else { chance(u, 210) };
+    let denial = [Denial::Nsec, Denial::Nsec3, Denial::Nsec3OptOut][pick(u, 3)];
+    let split_keys = flag(u);
+    let alg = match byte(u) {
+        0..=231 => Alg::P256,
+        232..=239 => Alg::Rsa256,
+        240..=245 => Alg::Rsa512,
+        _ => Alg::Ed25519,
+    };
+    let iterations = [0u16, 0, 0, 0, 1, 12, 100, 150, 600][pick(u, 9)];
+    let salt = flag(u);
+    let ds_digest = [2u8, 2, 2, 1, 4][pick(u, 5)];
+    ZoneShape { signed, ds_in_parent, denial, split_keys, alg, iterations: if denial == Denial::Nsec { 0 } else { iterations }, salt: salt && denial != Denial::Nsec, ds_digest }
+}
+
+fn fault_spec(u: &mut Unstructured, lookup: bool, restricted: Option<&[SKind]>) -> FaultSpec {
+    let structural = if chance(u, 200) {
+        let list = restricted.unwrap_or(if lookup { SKINDS_LOOKUP } else { SKINDS_ANSWER });
+        Some((list[pick(u, list.len())], byte(u), u16_(u)))
+    } else {
+        None
+    };
+    let nc = [0usize, 0, 1, 1, 2][pick(u, 5)];
+    let mut cosmetic = vec![];
+    for _ in 0..nc {
+        cosmetic.push((CKINDS[pick(u, CKINDS.len())], byte(u), u16_(u)));
+    }
+    FaultSpec { structural, cosmetic }
+}
+
+fn decode(u: &mut Unstructured, restricted: Option<&[SKind]>, plain_world: bool) -> Case {
+    // Order: query and faults first, world shape last, so that short inputs
+    // still give tampered queries (in the plainest world).
+    let qzone = [2usize, 2, 2, 1, 3, 0, 4, 2, 1, 3, 2, 4, 5, 6, 7, 9][pick(u, 16)];
+    let mode = pick(u, 8);
+    let (rel, qtype, lie) = if mode == 7 {
+        (0, T_A, Some(pick(u, 10)))
+    } else {
+        (pick(u, RELS.len()), QTYPES[pick(u, QTYPES.len())], None)
+    };
+    let flags = byte(u);
+    let authority_ns = flags & 0x07 == 0x07;
+    let warm = flags & 0x38 == 0x38;
+    let via_connection = if flags & 0xc0 == 0xc0 { Some((!chance(u, 50), !chance(u, 200), !chance(u, 230))) } else { None };
+    let bad_sigs = [1u8, 1, 1, 2, 8][pick(u, 5)];
+    // faults
+    let nf = [1usize, 0, 1, 1, 2, 1, 1, 2][pick(u, 8)];
+    let mut answer_fault = None;
+    let mut up_faults = vec![];
+    for _ in 0..nf {
+        if pick(u, 5) < 3 {
+            if answer_fault.is_none() {
+                answer_fault = Some(fault_spec(u, false, restricted));
+            }
+        } else {
+            up_faults.push((byte(u), flag(u), fault_spec(u, true, restricted)));
+        }
+    }
+    let ta = [Ta::RootDs, Ta::RootDnskey, Ta::RootDs, Ta::RootDnskey, Ta::RootBoth, Ta::TldDs, Ta::TldDnskey, Ta::None][pick(u, 8)];
+    let z = if plain_world {
+        let mut z = [ZoneShape::plain(); 4];
+        for s in z.iter_mut() {
+            s.denial = [Denial::Nsec, Denial::Nsec3, Denial::Nsec3OptOut][pick(u, 3)];
+            s.split_keys = flag(u);
+        }
+        z
+    } else {
+        [zone_shape(u, true), zone_shape(u, false), zone_shape(u, false), zone_shape(u, false)]
+    };
+    let mut z = z;
+    // The zone that holds the trust anchor keeps to algorithms the validator
+    // lists as supported (for an anchor the library verifies whatever ring
+    // can verify; RFC 4035 makes no statement for unsupported anchors).
+    let ta_zone = match ta {
+        Ta::TldDs | Ta::TldDnskey => 1,
+        _ => 0,
+    };
+    if z[ta_zone].alg == Alg::Ed25519 {
+        z[ta_zone].alg = Alg::P256;
+    }
+    let shape = Shape { z, ta: if plain_world && !matches!(ta, Ta::RootDs | Ta::RootDnskey | Ta::RootBoth) { Ta::RootDs } else { ta } };
+    Case { shape, qzone, rel, qtype, lie, authority_ns, answer_fault, up_faults, bad_sigs, via_connection, warm }
+}
+
+fn st(v: ValidationState) -> Status {
+    match v {
+        ValidationState::Secure => Status::Secure,
+        ValidationState::Insecure => Status::Insecure,
+        ValidationState::Bogus => Status::Bogus,
+        ValidationState::Indeterminate => Status::Indeterminate,
+    }
+}
+
+fn rel_name(rel: &str, apex: &[u8]) -> Nm {
+    let mut n = apex.to_vec();
+    if !rel.is_empty() {
+        for l in rel.split('.').rev() {
+            n = prepend(l.as_bytes(), &n);
+        }
+    }
+    n
+}
+
+/// Zones whose DS / DNSKEY the validator may have to fetch for this answer.
+fn chain_lookups(w: &World, resp: &Resp) -> Vec<(usize, u16)> {
+    let mut v: Vec<(usize, u16)> = vec![];
+    for &zi in &resp.zones {
+        let mut cur = Some(zi);
+        while let Some(i) = cur {
+            for t in [T_DS, T_DNSKEY] {
+                if !(t == T_DS && w.zones[i].parent.is_none()) && !v.contains(&(i, t)) {
+                    v.push((i, t));
+                }
+            }
+            cur = w.zones[i].parent;
+        }
+    }
+    v
+}
+
+fn run_case(case: &Case, ctx: &mut Ctx) -> CaseResult {
+    let w = match world(&case.shape) {
+        Ok(w) => w,
+        Err(e) => vfail!("world:construction-or-signer-cross-check-failed", "{e}\nshape {:?}", case.shape),
+    };
+    let qz = &w.zones[case.qzone];
+    // the query and its model answer
+    let (qname, qtype, mut resp, lie_label) = match case.lie.and_then(|v| lie(&w, case.qzone, v)) {
+        Some((n, t, r, l)) => (n, t, r, Some(l)),
+        None => {
+            let n = rel_name(RELS[case.rel], &qz.apex);
+            let r = resolve(&w, &n, case.qtype);
+            (n, case.qtype, r, None)
+        }
+    };
+    if case.authority_ns && lie_label.is_none() {
+        add_authority_ns(&w, &mut resp);
+    }
+    let mut truth_expected = resp.expected();
+    // DS of a name that itself carries a trust anchor, asked through a
+    // parent that is not secure: the RRset is parent-side data (no anchor →
+    // indeterminate/insecure), yet it sits at a name the anchor declares
+    // secure. Both readings are defensible: no expectation.
+    if qtype == T_DS && w.zones.iter().any(|z| z.has_ta && name_eq(&z.apex, &qname)) {
+        ctx.class("ds-of-anchored-name");
+        truth_expected = None;
+    }
+    let lie_secure = lie_label.is_some() && w.zones[case.qzone].status == Status::Secure;
+    let mut m = resp.to_msg(&qname, qtype);
+    let mut sets = resp.sets.clone();
+    let mut applied: Vec<(String, Applied)> = vec![];
+    let mut opts = WriteOpts::default();
+    let mut wire_kind = None;
+    if let Some(f) = &case.answer_fault {
+        if let Some((k, sel, param)) = f.structural {
+            if matches!(k, SKind::Counts | SKind::Truncate | SKind::FlipByte) {
+                wire_kind = Some((k, sel, param));
+            } else if let Some(a) = apply_structural(&w, &mut m, &mut sets, k, sel, param, None, qtype) {
+                applied.push(("answer".into(), a));
+            }
+        }
+        for (k, sel, param) in &f.cosmetic {
+            if let Some(l) = apply_cosmetic(&mut m, &sets, &mut opts, *k, *sel, *param) {
+                applied.push(("answer".into(), Applied { effect: Effect::Harmless, label: l, touches_signed: false, forged_zone: None }));
+            }
+        }
+    }
+    let (wire, a) = finish(&m, &opts, wire_kind);
+    if let Some(a) = a {
+        applied.push(("answer".into(), a));
+    }
+    let Wire::Bytes(bytes) = wire else { return Ok(()) };
+    // upstream faults: choose among the lookups of the chain
+    let lookups = chain_lookups(&w, &resp);
+    let mut up_faults: Vec<UpFault> = vec![];
+    if let Some(zi) = applied.iter().find_map(|(_, a)| a.forged_zone) {
+        let param = case.answer_fault.as_ref().and_then(|f| f.structural).map(|x| x.2).unwrap_or(0);
+        up_faults.push(UpFault { zone: zi, qtype: T_DNSKEY, spec: FaultSpec { structural: Some((SKind::ForgedDnskey, 0, param)), cosmetic: vec![] } });
+    }
+    for (sel, _f, spec) in &case.up_faults {
+        if lookups.is_empty() {
+            break;
+        }
+        let (zone, qt) = lookups[*sel as usize % lookups.len()];
+        if up_faults.iter().any(|f| f.zone == zone && f.qtype == qt) {
+            continue;
+        }
+        up_faults.push(UpFault { zone, qtype: qt, spec: spec.clone() });
+    }
+    if case.warm {
+        up_faults.clear();
+    }
+    let state = Arc::new(Mutex::new(UpState::default()));
+    let up = Up { world: w.clone(), faults: up_faults.clone(), final_qtype: qtype, state: state.clone() };
+    let ta = match TrustAnchors::from_u8(w.anchors.as_bytes()) {
+        Ok(t) => t,
+        Err(e) => vfail!("world:trust-anchor-text-rejected", "{e}\n{}", w.anchors),
+    };
+    let mut config = Config::new();
+    config.set_bad_signatures(case.bad_sigs);
+    let vc = ValidationContext::with_config(ta, up, config);
+    let Ok(mut msg) = Message::from_octets(bytes.clone()) else {
+        ctx.class("final-message-shorter-than-header");
+        return Ok(());
+    };
+    if case.warm {
+        ctx.class("warm-context");
+        let clean = write_msg(&resp.to_msg(&qname, qtype), &WriteOpts::default());
+        if let Ok(mut cm) = Message::from_octets(clean) {
+            let r = guarded("validate_msg", || block_on_paused(async { vc.validate_msg(&mut cm).await.map(|x| x.0) }));
+            if let Err(v) = r {
+                vfail!("panic:validate_msg:warm-up", "{}", v.detail);
+            }
+        }
+    }
+    let guarded_res = guarded("validate_msg", || block_on_paused(async { vc.validate_msg(&mut msg).await }));
+    let (res, panicked) = match guarded_res {
+        Ok(r) => (r, None),
+        Err(v) => (Err(domain::dnssec::validator::context::Error::FormError), Some(v)),
+    };
+    let (count, log, up_applied) = {
+        let s = state.lock().unwrap();
+        (s.count, s.log.clone(), s.applied.clone())
+    };
+    for (fi, mut a) in up_applied {
+        let f = &up_faults[fi];
+        a.label = format!("{}:@{}", a.label, show(&w.zones[f.zone].apex));
+        applied.push((format!("lookup-{}", tname(f.qtype)), a));
+    }
+
+    // fault interplay: data re-signed with the KSK does not need the ZSK
+    // that a DNSKEY-lookup fault took away
+    if applied.iter().any(|(_, a)| a.label.starts_with("signed-by-ksk")) {
+        for (_, a) in applied.iter_mut() {
+            if a.label.starts_with("dnskey-malformed") && a.label.contains("replaces-zsk") {
+                a.effect = Effect::Neutral;
+            }
+        }
+    }
+
+    //--- evidence
+    let kinds = if let Some(l) = lie_label { l.to_string() } else { resp.kinds.join("+") };
+    ctx.class(format!("query:{kinds}"));
+    for &zi in &resp.zones {
+        let z = &w.zones[zi];
+        ctx.class(format!("zone-status:{:?}", z.status));
+        if z.shape.signed {
+            ctx.class(format!("denial:{:?}", z.shape.denial));
+            ctx.class(format!("keys:{}", if z.ksk == z.zsk { "csk" } else { "ksk+zsk" }));
+            ctx.class(format!("alg:{:?}", z.shape.alg));
+        } else {
+            ctx.class("zone-unsigned");
+        }
+    }
+    ctx.class(format!("anchor:{:?}", case.shape.ta));
+    if resp.optout_used {
+        ctx.class("proof-uses-opt-out");
+    }
+    if resp.high_iter {
+        ctx.class("nsec3-iterations-above-100");
+    }
+    for (t, a) in &applied {
+        let fam = a.label.split(':').next().unwrap_or("");
+        ctx.class(format!("fault:{}:{}:{:?}", if t == "answer" { "answer" } else { "lookup" }, fam, a.effect));
+    }
+    let structural: Vec<&(String, Applied)> = applied.iter().filter(|(_, a)| a.effect != Effect::Harmless || a.label.contains("sig")).collect();
+    if applied.is_empty() {
+        ctx.class("no-fault");
+    }
+    let verdict: Result<Status, String> = match &res {
+        Ok((v, _)) => Ok(st(*v)),
+        Err(e) => Err(format!("{e}")),
+    };
+    ctx.class(match &verdict {
+        Ok(v) => format!("verdict:{v:?}"),
+        Err(_) => "verdict:error".into(),
+    });
+    let secure_levels = {
+        let mut n = 0;
+        let mut cur = resp.zones.first().copied();
+        while let Some(i) = cur {
+            if w.zones[i].status == Status::Secure {
+                n += 1;
+            }
+            cur = w.zones[i].parent;
+        }
+        n
+    };
+    let negative_or_wildcard = lie_label.is_some() || resp.kinds.iter().any(|k| k.contains("nodata") || k.contains("nxdomain") || k.contains("wildcard"));
+    if secure_levels >= 2 && (negative_or_wildcard || applied.iter().any(|(_, a)| a.touches_signed)) {
+        ctx.nontrivial(case);
+    }
+    let describe = || {
+        let mut s = format!(
+            "anchor={:?} zones=[{}] query={} {} ({kinds}) rcode={} model-expects={:?}\n",
+            case.shape.ta,
+            (0..4).map(|i| format!("{}:{}{:?}/{:?}{}", show(&w.zones[i].apex), if case.shape.z[i].signed { "" } else { "UNSIGNED/" }, case.shape.z[i].denial, w.zones[i].status, if case.shape.z[i].ds_in_parent { "" } else { "/noDS" })).collect::<Vec<_>>().join(" "),
+            show(&qname),
+            tname(qtype),
+            resp.rcode,
+            truth_expected
+        );
+        for (t, a) in &applied {
+            s.push_str(&format!("  fault on {t}: {} [{:?}]\n", a.label, a.effect));
+        }
+        s.push_str(&format!("  final message: an=[{}] ns=[{}]\n", m.answer.iter().map(show_rec).collect::<Vec<_>>().join(", "), m.authority.iter().map(show_rec).collect::<Vec<_>>().join(", ")));
+        s.push_str(&format!("  lookups({count}): {}\n", log.iter().take(24).map(|(n, t)| format!("{} {}", show(n), tname(*t))).collect::<Vec<_>>().join(", ")));
+        s.push_str(&format!("  verdict: {:?} ede={:?}", verdict, res.as_ref().ok().and_then(|r| r.1.as_ref().map(|e| format!("{e:?}")))));
+        s
+    };
+    ctx.sample(describe);
+
+    //--- the same case through the validating connection
+    let mut conn_result: Option<String> = None;
+    if let (Some((do_bit, ad_bit, cd_bit)), None) = (case.via_connection, &panicked) {
+        use domain::base::{MessageBuilder, Name, Rtype};
+        let state2 = Arc::new(Mutex::new(UpState::default()));
+        let up2 = Up { world: w.clone(), faults: up_faults.clone(), final_qtype: qtype, state: state2 };
+        let mut config = Config::new();
+        config.set_bad_signatures(case.bad_sigs);
+        let ta2 = TrustAnchors::from_u8(w.anchors.as_bytes()).expect("anchors parsed before");
+        let vc2 = Arc::new(ValidationContext::with_config(ta2, up2, config));
+        let conn = domain::net::client::validator::Connection::<FinalUp, Vec<u8>, Up>::new(FinalUp { bytes: bytes.clone() }, vc2);
+        let mut mb = MessageBuilder::new_vec();
+        mb.header_mut().set_rd(true);
+        mb.header_mut().set_ad(ad_bit);
+        mb.header_mut().set_cd(cd_bit);
+        let mut q = mb.question();
+        let qn: Name<Vec<u8>> = Name::from_octets(lower(&qname)).expect("name");
+        q.push((qn, Rtype::from_int(qtype))).expect("push question");
+        let mut req = RequestMessage::new(q.into_message()).expect("request");
+        req.set_dnssec_ok(do_bit);
+        let r = guarded("validator::Connection", || {
+            block_on_paused(async {
+                let mut g = conn.send_request(req);
+                g.get_response().await
+            })
+        });
+        let final_rcode = (bytes[3] & 0x0f) as u16;
+        let wire_fault = applied.iter().any(|(t, a)| t == "answer" && matches!(a.label.split(':').next().unwrap_or(""), "truncated" | "flip-bit") || a.label.starts_with("header-count"));
+        ctx.class(format!("connection:do={do_bit}:cd={cd_bit}"));
+        match r {
+            Err(v) => {
+                let parts: Vec<&str> = v.sig.splitn(3, ':').collect();
+                let file = parts.get(1).map(|f| f.rsplit('/').next().unwrap_or(f)).unwrap_or("?");
+                let msg = parts.get(2).copied().unwrap_or("?");
+                let msg = msg.split('(').next().unwrap_or(msg).trim();
+                vfail!(format!("panic:validator-connection:{file}:{msg}"), "{}\nrequest DO={do_bit} AD={ad_bit} CD={cd_bit}\n{}", v.detail, describe());
+            }
+            Ok(Err(e)) => {
+                conn_result = Some(format!("Err({e})"));
+                if !wire_fault && !cd_bit {
+                    vensure!(verdict.is_err(), "connection:error-for-wellformed-answer", "Connection returned Err({e}) but validate_msg gave {verdict:?}\n{}", describe());
+                }
+            }
+            Ok(Ok(out)) => {
+                let ad = out.header().ad();
+                let rcode = out.header().rcode().to_int() as u16;
+                conn_result = Some(format!("ad={ad} rcode={rcode}"));
+                if std::env::var_os("C14_DEBUG").is_some() {
+                    eprintln!("connection result: {conn_result:?}; final message octets: {}", bytes.iter().map(|b| format!("{b:02x}")).collect::<String>());
+                }
+                if wire_fault {
+                    // octet-level damage can make the outcome depend on the
+                    // message ID (a pointer into the header): no comparison
+                } else if cd_bit {
+                    vensure!(!ad, "connection:ad-set-with-cd", "AD set although the client asked for CD\n{}", describe());
+                } else {
+                    match &verdict {
+                        Ok(Status::Secure) => {
+                            vensure!(ad == (do_bit || ad_bit), "connection:ad-bit-wrong-for-secure", "verdict Secure, request DO={do_bit} AD={ad_bit}, response AD={ad}\n{}", describe());
+                            vensure!(rcode == final_rcode, "connection:rcode-changed-for-secure", "rcode {final_rcode} became {rcode}\n{}", describe());
+                        }
+                        Ok(Status::Bogus) => {
+                            vensure!(!ad && rcode == 2, "connection:bogus-not-servfail", "verdict Bogus but response has AD={ad} rcode={rcode}\n{}", describe());
+                        }
+                        Ok(_) => {
+                            vensure!(!ad, "connection:ad-set-without-secure", "verdict {verdict:?} but AD is set\n{}", describe());
+                            vensure!(rcode == final_rcode, "connection:rcode-changed", "rcode {final_rcode} became {rcode}\n{}", describe());
+                        }
+                        Err(e) => vfail!("connection:ok-although-validate-msg-failed", "validate_msg Err({e}) but the connection delivered a response\n{}", describe()),
+                    }
+                }
+            }
+        }
+    }
+    if std::env::var_os("C14_DEBUG").is_some() {
+        eprintln!("connection result: {conn_result:?}; final message octets: {}", bytes.iter().map(|b| format!("{b:02x}")).collect::<String>());
+    }
+
+    //--- totality: no panic, bounded number of lookups
+    if let Some(v) = panicked {
+        let parts: Vec<&str> = v.sig.splitn(3, ':').collect();
+        let file = parts.get(1).map(|f| f.rsplit('/').next().unwrap_or(f)).unwrap_or("?");
+        let msg = parts.get(2).copied().unwrap_or("?");
+        // keep the message up to the first case-specific detail
+        let msg = msg.split('(').next().unwrap_or(msg).trim();
+        vfail!(format!("panic:validate_msg:{file}:{msg}"), "{}\n{}", v.detail, describe());
+    }
+    let bound: usize = 16
+        + 4 * m
+            .answer
+            .iter()
+            .chain(m.authority.iter())
+            .map(|r| label_count(&r.owner) + 2 + if r.rtype == T_RRSIG { parse_rrsig(&r.rdata).map(|f| label_count(&f.signer)).unwrap_or(0) } else { 0 })
+            .sum::<usize>();
+    vensure!(count <= bound, "totality:lookups-exceed-bound", "{count} upstream lookups for one validate_msg, bound {bound}\n{}", describe());
+
+    //--- soundness and completeness
+    let worst = structural.iter().map(|(_, a)| a.effect).max();
+    let fault_sig = || -> String {
+        let mut v: Vec<String> = structural.iter().map(|(t, a)| format!("{}/{}", if t == "answer" { "answer" } else { t.as_str() }, a.label.split(':').next().unwrap_or(""))).collect();
+        v.sort();
+        v.dedup();
+        v.join(",")
+    };
+    let is_secure = verdict == Ok(Status::Secure);
+    // nothing is secure without a chain from an anchor
+    // (a signature made by the fault script with the genuine key of a secure
+    // ancestor zone does chain to the anchor: no claim then)
+    let ancestor_signed = applied.iter().any(|(_, a)| a.label.starts_with("wrong-signer-ancestor"));
+    if let Some(exp) = &resp.chain_expected() {
+        if lie_label.is_none() && !exp.contains(&Status::Secure) && !ancestor_signed {
+            vensure!(!is_secure, format!("soundness:secure-without-chain:{kinds}"), "model allows {exp:?} but the validator says Secure\n{}", describe());
+        }
+    }
+    if let Some(l) = lie_label {
+        // records signed with the zone's own key by the fault script (hostile
+        // operator) can make any denial true: judge lies only when the answer
+        // carries nothing but cosmetic changes
+        let answer_structural = structural.iter().any(|(t, _)| t == "answer");
+        if answer_structural {
+            return Ok(());
+        }
+        if lie_secure || !truth_expected.as_ref().map(|e| e.contains(&Status::Secure)).unwrap_or(false) {
+            vensure!(!is_secure, format!("soundness:secure-for-false-denial:{l}:{:?}", w.zones[case.qzone].shape.denial), "a denial of existing data built from genuine records was accepted as Secure\n{}", describe());
+        }
+        return Ok(());
+    }
+    match worst {
+        Some(Effect::Breaking) | Some(Effect::Downgrade) => {
+            vensure!(!is_secure, format!("soundness:secure-despite:{}", fault_sig()), "a fault that breaks data, signature, key chain or proof still gives Secure\n{}", describe());
+            let only = structural.len() == 1 && worst == Some(Effect::Downgrade);
+            // With Opt-Out an unsigned name below a covered span may be an
+            // insecure delegation (RFC 5155 §6): stripping the final answer
+            // can then legitimately end in Insecure.
+            let optout_on_path = lookups.iter().any(|(zi, _)| w.zones[*zi].shape.signed && w.zones[*zi].shape.denial == Denial::Nsec3OptOut);
+            let strict = structural[0].0 != "answer" || !optout_on_path;
+            if only && strict && truth_expected.as_ref().map(|e| e.iter().all(|s| matches!(s, Status::Secure | Status::Insecure))).unwrap_or(false) {
+                vensure!(
+                    verdict == Ok(Status::Bogus) || verdict.is_err(),
+                    format!("soundness:stripped-not-bogus:{}", fault_sig()),
+                    "DNSSEC material of a signed zone was stripped without signed proof; RFC 4033 §5 allows only Bogus\n{}",
+                    describe()
+                );
+            }
+        }
+        Some(Effect::Neutral) => {}
+        Some(Effect::Harmless) | None => {
+            if let Some(exp) = &truth_expected {
+                match &verdict {
+                    Ok(v) => vensure!(
+                        exp.contains(v),
+                        format!("{}:{kinds}:want-{}:got-{v:?}", if applied.is_empty() { "completeness".to_string() } else { format!("harmless:{}", applied.iter().map(|(_, a)| a.label.split(':').next().unwrap_or("").to_string()).collect::<Vec<_>>().join(",")) }, exp.iter().map(|s| format!("{s:?}")).collect::<Vec<_>>().join("|")),
+                        "verdict differs from the model\n{}",
+                        describe()
+                    ),
+                    Err(e) => vfail!(format!("completeness:{kinds}:error"), "validate_msg returned Err({e}) for a well-formed answer\n{}", describe()),
+                }
+            }
+        }
+    }
+    Ok(())
+}
+
+fn run_main(data: &[u8], ctx: &mut Ctx) -> CaseResult {
+    let mut u = Unstructured::new(data);
+    let case = decode(&mut u, None, false);
+    run_case(&case, ctx)
+}
+
+/// Same machinery on the fully secure world only (all four levels signed and
+/// chained): every fault meets a signed object.
+fn run_secure(data: &[u8], ctx: &mut Ctx) -> CaseResult {
+    let mut u = Unstructured::new(data);
+    let case = decode(&mut u, None, true);
+    run_case(&case, ctx)
+}
+
+//------------ real-time check: cached signature results and expiry -----------------
+
+fn unix_now() -> u32 {
+    std::time::SystemTime::now().duration_since(std::time::UNIX_EPOCH).map(|d| d.as_secs() as u32).unwrap_or(0)
+}
+
+/// The validator keeps the outcome of signature checks in a cache. A
+/// signature that was valid when first seen must not stay "valid" after its
+/// expiration time. This is the only check that needs real time to pass
+/// (about four seconds): `Timestamp::now()` cannot be driven from outside.
+/// Returns Ok(false) when the machine was too slow for the scenario.
+fn sig_cache_expiry_check() -> Result<bool, Violation> {
+    let shape = Shape { z: [ZoneShape::plain(); 4], ta: Ta::RootDs };
+    let w = world(&shape).map_err(|e| Violation::new("world:construction-or-signer-cross-check-failed", e))?;
+    let z = &w.zones[Z_ZONE];
+    let qname = rel_name("www", &z.apex);
+    let resp = resolve(&w, &qname, T_A);
+    let mut m = resp.to_msg(&qname, T_A);
+    let rrset: Vec<Rec> = m.answer.iter().filter(|r| r.rtype == T_A).cloned().collect();
+    let exp = unix_now().wrapping_add(2);
+    let sig = craft_sig(z.zsk, &z.dnskey_rdata(false), &z.apex, &rrset, label_count(&qname) as u8, 3600, exp.wrapping_sub(1000), exp, None);
+    m.answer.retain(|r| r.rtype != T_RRSIG);
+    m.answer.push(sig);
+    let bytes = write_msg(&m, &WriteOpts::default());
+    let state = Arc::new(Mutex::new(UpState::default()));
+    let up = Up { world: w.clone(), faults: vec![], final_qtype: T_A, state };
+    let ta = TrustAnchors::from_u8(w.anchors.as_bytes()).map_err(|e| Violation::new("world:trust-anchor-text-rejected", format!("{e}")))?;
+    let vc = ValidationContext::new(ta, up);
+    let run = |vc: &ValidationContext<Up>| -> Result<Result<Status, String>, Violation> {
+        let mut msg = Message::from_octets(bytes.clone()).expect("message");
+        guarded("validate_msg", || block_on_paused(async { vc.validate_msg(&mut msg).await })).map(|r| r.map(|x| st(x.0)).map_err(|e| format!("{e}")))
+    };
+    let first = run(&vc)?;
+    if unix_now() > exp {
+        return Ok(false);
+    }
+    if first != Ok(Status::Secure) {
+        return Err(Violation::new("sig-cache:fresh-signature-not-secure", format!("a signature valid for two more seconds gives {first:?}")));
+    }
+    while unix_now() <= exp.wrapping_add(1) {
+        std::thread::sleep(std::time::Duration::from_millis(200));
+    }
+    let second = match run(&vc) {
+        Ok(r) => r,
+        Err(v) => {
+            let msg = v.sig.rsplit(':').next().unwrap_or("").to_string();
+            return Err(Violation::new(format!("sig-cache:panic-after-expiry:{msg}"), format!("the same message was validated again with the same context {} s after its RRSIG expired: {}", unix_now().wrapping_sub(exp), v.detail)));
+        }
+    };
+    if second == Ok(Status::Secure) {
+        return Err(Violation::new(
+            "sig-cache:expired-signature-still-secure",
+            format!("www.zone.tld. A with an RRSIG expiring at {exp} was Secure before expiry and is still Secure {} s after it (same ValidationContext: the cached signature check ignores time)", unix_now().wrapping_sub(exp)),
+        ));
+    }
+    Ok(true)
+}
+
+fn extra(_opts: &RunOpts, agg: &mut Agg) -> Result<(), (Violation, Vec<u8>)> {
+    match sig_cache_expiry_check() {
+        Ok(done) => {
+            agg.evaluations += 1;
+            agg.extra_notes.insert("sig_cache_expiry_check".into(), if done { "held" } else { "skipped (machine too slow)" }.into());
+            Ok(())
+        }
+        Err(v) => Err((v, vec![1])),
+    }
+}
+
+fn replay_extra(_data: &[u8], ctx: &mut Ctx) -> CaseResult {
+    ctx.class("sig-cache-expiry");
+    sig_cache_expiry_check().map(|_| ())
+}
+
+fn health(c: &BTreeMap<String, u64>, thorough: bool) -> Result<(), String> {
+    // sums over class-name prefixes; thresholds are for the quick tier
+    let sum = |prefix: &str| -> u64 { c.iter().filter(|(k, _)| k.starts_with(prefix)).map(|(_, v)| *v).sum() };
+    let scale = if thorough { 10 } else { 1 };
+    let need: &[(&str, u64)] = &[
+        ("query:positive", 500),
+        ("query:nodata", 300),
+        ("query:nxdomain", 500),
+        ("query:wildcard", 100),
+        ("query:wildcard-nodata", 50),
+        ("query:wildcard-cname", 50),
+        ("query:ent-nodata", 50),
+        ("query:ds-at-cut", 10),
+        ("query:ds-nodata", 30),
+        ("query:cname+positive", 30),
+        ("query:cname+nxdomain", 30),
+        ("query:lie-nodata", 100),
+        ("query:lie-nxdomain", 100),
+        ("query:lie-wildcard", 50),
+        ("zone-status:Secure", 3000),
+        ("zone-status:Insecure", 500),
+        ("zone-status:Indeterminate", 100),
+        ("denial:Nsec3OptOut", 300),
+        ("denial:Nsec3", 1000),
+        ("denial:Nsec", 2000),
+        ("keys:ksk+zsk", 500),
+        ("anchor:RootDs", 500),
+        ("anchor:RootDnskey", 500),
+        ("anchor:Tld", 100),
+        ("anchor:None", 50),
+        ("proof-uses-opt-out", 50),
+        ("verdict:Secure", 1000),
+        ("verdict:Insecure", 500),
+        ("verdict:Bogus", 1000),
+        ("verdict:Indeterminate", 100),
+        ("no-fault", 1000),
+        ("connection:", 500),
+        ("warm-context", 300),
+        ("fault:answer:drop-sig:Breaking", 30),
+        ("fault:answer:corrupt-sig:Breaking", 20),
+        ("fault:answer:mut-sig-", 20),
+        ("fault:answer:expired:Breaking", 20),
+        ("fault:answer:not-yet-valid:Breaking", 20),
+        ("fault:answer:wrong-signer-foreign:Breaking", 10),
+        ("fault:answer:unknown-key", 20),
+        ("fault:answer:corrupt-rdata:Breaking", 20),
+        ("fault:answer:add-record:Breaking", 10),
+        ("fault:answer:drop-set", 30),
+        ("fault:answer:forged-zone-key:Breaking", 20),
+        ("fault:answer:strip-dnssec", 10),
+        ("fault:answer:hostile-", 50),
+        ("fault:answer:hostile-add-nsec3-owner-not-base32hex", 2),
+        ("fault:answer:header-count", 10),
+        ("fault:answer:truncated", 10),
+        ("fault:answer:ttl-zero:Harmless", 50),
+        ("fault:answer:owner-case:Harmless", 50),
+        ("fault:answer:reorder:Harmless", 50),
+        ("fault:answer:compress:Harmless", 50),
+        ("fault:answer:extra-valid-sig:Harmless", 10),
+        ("fault:lookup:drop-sig:Breaking", 20),
+        ("fault:lookup:corrupt-sig:Breaking", 10),
+        ("fault:lookup:expired:Breaking", 5),
+        ("fault:lookup:corrupt-rdata:Breaking", 5),
+        ("fault:lookup:upstream-error:Breaking", 20),
+        ("fault:lookup:strip-dnssec", 20),
+        ("fault:lookup:dnskey-malformed", 10),
+        ("fault:lookup:forged-dnskey-set", 20),
+        ("fault:lookup:header-count", 5),
+        ("fault:lookup:ttl-zero:Harmless", 20),
+    ];
+    for (k, n) in need {
+        let have = sum(k);
+        if have < n * scale {
+            return Err(format!("class {k}* starved ({have} < {})", n * scale));
+        }
+    }
+    Ok(())
+}
 
 pub fn prop() -> Option<Prop> {
-    None
+    Some(Prop {
+        id: "C14",
+        rule: "case = (world shape, query, 0-2 fault scripts on the final answer and on DS/DNSKEY lookups); non-trivial iff the queried zone has >= 2 secure signed levels above or at it and the case has a fault that touches a signed object or a negative/wildcard answer; distinct by decoded case",
+        assumptions: &[
+            "signatures are valid from now-1d to now+1d; 'expired' ended a day ago, 'not yet valid' starts in a day, so the verdict does not depend on when the check runs",
+            "ring's hash and signature primitives are trusted; fixture keys only (ECDSA P-256, RSA/SHA-256, RSA/SHA-512, Ed25519 as 'unsupported by the validator')",
+            "a signer at or above the owner name (ancestor zone) is not counted as a wrong signer: such a signature still chains to the anchor",
+        ],
+        subchecks: vec![SubCheck::new("world", run_main, 40_000, 500_000, 200), SubCheck::new("secure", run_secure, 40_000, 500_000, 160), SubCheck::new("extra", replay_extra, 0, 0, 8)],
+        health: Some(health),
+        extra: Some(extra),
+    })
 }
